@@ -311,7 +311,7 @@ func (s *Scanner) scanEscapeSequence() string {
 	case 'x': // '\xDD'
 		return s.scanHexadecimalEscape(2)
 	case '\r':
-		if tar := s.peekEqual(1, '\n'); tar >= 0 {
+		if tar := s.peekEqual(0, '\n'); tar >= 0 {
 			s.pos = tar
 		}
 		fallthrough
